@@ -37,7 +37,10 @@ FB2 = ("BEGIN:VCALENDAR\r\nVERSION:2.0\r\nPRODID:-//xv//EN\r\nBEGIN:VFREEBUSY\r\
 EFALSY = B.ics("efalsy", "falsy", extra="LOCATION:\nPRIORITY:0\nSEQUENCE:0", dtstart="20200107T100000Z")
 # floating times (no TZID, no Z): they are read in the time zone of the query
 EFL = B.ics("efl", "floating", extra="DTEND:20200410T110000", dtstart="20200410T100000")
-BODIES = {"E1": E1, "E2": E2, "E3": E3, "T1": T1, "ETZ": ETZ, "FB2": FB2, "EF": EFALSY, "EFL": EFL}
+# a one-day DURATION across the Europe/Paris spring transition: 28 March 12:00 + P1D = 29 March 12:00 local = 10:00 UTC (23 hours)
+EDST = ("BEGIN:VCALENDAR\r\nVERSION:2.0\r\nPRODID:-//xv//EN\r\n" + B.TZ_BLOCK + "\r\nBEGIN:VEVENT\r\nUID:edst\r\nDTSTAMP:20200101T000000Z\r\n"
+        "DTSTART;TZID=Europe/Paris:20200328T120000\r\nDURATION:P1D\r\nSUMMARY:dst\r\nEND:VEVENT\r\nEND:VCALENDAR\r\n").encode()
+BODIES = {"EDST": EDST, "E1": E1, "E2": E2, "E3": E3, "T1": T1, "ETZ": ETZ, "FB2": FB2, "EF": EFALSY, "EFL": EFL}
 
 
 def cf(name, inner=""):
@@ -71,6 +74,8 @@ FILTERS = {
     "float-range-utc": cf("VCALENDAR", cf("VEVENT", tr("20200410T100000Z", "20200410T110000Z"))),
     "float-range@tokyo-hit": (cf("VCALENDAR", cf("VEVENT", tr("20200410T010000Z", "20200410T020000Z"))), "Asia/Tokyo"),
     "float-range@tokyo-miss": (cf("VCALENDAR", cf("VEVENT", tr("20200410T100000Z", "20200410T110000Z"))), "Asia/Tokyo"),
+    # starts exactly when the 23-hour "day" of EDST ends (10:00 UTC on 29 March)
+    "range-after-dst-day": cf("VCALENDAR", cf("VEVENT", tr("20200329T100000Z", "20200329T140000Z"))),
     "freebusy-range": cf("VCALENDAR", cf("VFREEBUSY", tr("20200311T000000Z", "20200312T000000Z"))),
 }
 
@@ -166,7 +171,7 @@ class C10Sys:
     def enabled_ops(self):
         ops = []
         for b in self.cfg.bodies:
-            nm = {"T1": "t.ics", "E3": "c.ics", "ETZ": "z.ics", "FB2": "f.ics", "EF": "e.ics", "EFL": "l.ics"}.get(b, "a.ics")
+            nm = {"T1": "t.ics", "E3": "c.ics", "ETZ": "z.ics", "FB2": "f.ics", "EF": "e.ics", "EFL": "l.ics", "EDST": "d.ics"}.get(b, "a.ics")
             ops.append(("put", nm, b))
         for nm in sorted(self.model):
             ops.append(("delete", nm))
@@ -269,7 +274,8 @@ def run(tier, workers=None):
                 C10Cfg(0, filters=["range-after-paris", "freebusy-range", "range-jan"], bodies=("ETZ", "FB2", "E1")),
                 C10Cfg(1, filters=["location-defined", "priority-defined", "location-not-defined"], bodies=("EF", "E1")),
                 C10Cfg(0, filters=["float-range-utc", "float-range@tokyo-hit", "float-range@tokyo-miss"], bodies=("EFL", "E1")),
-                C10Cfg(0, filters=["summary=alpha", "range-jan"], bodies=("E1", "E3"), second_writer=True)]
+                C10Cfg(0, filters=["summary=alpha", "range-jan"], bodies=("E1", "E3"), second_writer=True),
+                C10Cfg(0, filters=["range-after-dst-day", "vevent"], bodies=("EDST",))]
         depth = {0: 3, 1: 3}
     else:
         cfgs = [C10Cfg(0), C10Cfg(1), C10Cfg(2, filters=["vevent", "summary=beta", "range-feb", "todo-not-completed"]),
@@ -278,7 +284,8 @@ def run(tier, workers=None):
                 C10Cfg(1, filters=["range-after-paris", "freebusy-range", "range-jan", "vevent"], bodies=("ETZ", "FB2", "E1")),
                 C10Cfg(0, filters=["location-defined", "priority-defined", "location-not-defined", "vevent"], bodies=("EF", "E1", "E2")),
                 C10Cfg(1, filters=["float-range-utc", "float-range@tokyo-hit", "float-range@tokyo-miss", "vevent"], bodies=("EFL", "E1", "ETZ")),
-                C10Cfg(1, filters=["summary=alpha", "range-jan", "vevent"], bodies=("E1", "E3", "T1"), second_writer=True)]
+                C10Cfg(1, filters=["summary=alpha", "range-jan", "vevent"], bodies=("E1", "E3", "T1"), second_writer=True),
+                C10Cfg(1, filters=["range-after-dst-day", "vevent"], bodies=("EDST", "E1"))]
         depth = {}
     tot = {"states": 0, "transitions": 0, "replays": 0, "requests": 0}
     per_cfg = []
@@ -289,7 +296,7 @@ def run(tier, workers=None):
         d = 3 if tier == "quick" else 4
         # non-initial start states: an object that was indexed, then removed (or replaced) while the index stayed in use -
         # from there the same bytes coming back is one step away
-        nm0 = {"T1": "t.ics", "E3": "c.ics", "ETZ": "z.ics", "FB2": "f.ics", "EF": "e.ics", "EFL": "l.ics"}.get(cfg.bodies[0], "a.ics")
+        nm0 = {"T1": "t.ics", "E3": "c.ics", "ETZ": "z.ics", "FB2": "f.ics", "EF": "e.ics", "EFL": "l.ics", "EDST": "d.ics"}.get(cfg.bodies[0], "a.ics")
         f0 = cfg.filters[0]
         seeds = [[("put", nm0, cfg.bodies[0]), ("qq", f0), ("delete", nm0), ("q", f0)]]
         if len(cfg.bodies) > 1 and {"T1": "t.ics", "E3": "c.ics", "ETZ": "z.ics", "FB2": "f.ics", "EF": "e.ics", "EFL": "l.ics"}.get(cfg.bodies[1], "a.ics") == nm0:
